@@ -66,7 +66,7 @@ Record sst := mk_sst { s_cs : list cb; s_sorted : list string }.
 Inductive outcome :=
 | Done (st : sst)
 | Conflict (st : sst) (name target : string)   (* fmt.Errorf("conflicting callback %s with before %s") *)
-| OutOfFuel.                                    (* recursion deeper than the fuel: the real code overflows the stack *)
+| Cyclic (st : sst) (name : string).            (* depth > 2*len(cs)+2: fmt.Errorf("conflicting callback %s with cyclic before/after") *)
 
 Definition nonempty {A} (l : list A) : bool := match l with [] => false | _ => true end.
 
@@ -130,7 +130,11 @@ Definition finish (st : sst) (name : string) : sst :=
 
 Fixpoint sort_cb (fuel : nat) (names : list string) (st : sst) (i : nat) : outcome :=
   match fuel with
-  | O => OutOfFuel
+  | O => (* depth++ ; if depth > 2*len(cs)+2 { return error } : the call at depth fuel+1 *)
+    match nth_error (s_cs st) i with
+    | None => Done st
+    | Some c => Cyclic st (cb_name c)
+    end
   | S f =>
     match nth_error (s_cs st) i with
     | None => Done st
@@ -188,7 +192,7 @@ Definition depth_fuel (cs : list cb) : nat := 2 * length cs + 2.
 Inductive sorted_result :=
 | SOk (cs : list cb) (fns : list (string * N))
 | SErr (cs : list cb) (name target : string)
-| SCrash.
+| SCyc (cs : list cb) (name : string).
 
 Definition sort_callbacks (cs0 : list cb) : sorted_result :=
   let cs := presort cs0 in
@@ -196,7 +200,7 @@ Definition sort_callbacks (cs0 : list cb) : sorted_result :=
   match sort_loop (depth_fuel cs) names (mk_sst cs []) O (length cs) with
   | Done st => SOk (s_cs st) (pick (s_cs st) names (s_sorted st))
   | Conflict st n t => SErr (s_cs st) n t
-  | OutOfFuel => SCrash
+  | Cyclic st n => SCyc (s_cs st) n
   end.
 
 (* processor.compile, on p.callbacks with the new callback already appended *)
@@ -228,10 +232,12 @@ Definition cb_of_step (s : step) (hid : N) : cb :=
 Inductive obs :=
 | OOk (fired : list (string * N))
 | OErr (msg : string) (fired : list (string * N))
-| OCrash.
+| OCrash.   (* the process died: never an answer of this model since the depth guard of /repo 591f9f1 *)
 
 Definition conflict_msg (n t : string) : string :=
   "conflicting callback " ++ n ++ " with before " ++ t.
+Definition cyclic_msg (n : string) : string :=
+  "conflicting callback " ++ n ++ " with cyclic before/after".
 
 (* processor state: p.callbacks and p.fns (as (name, handler id)) *)
 Record proc := mk_proc { p_cs : list cb; p_fns : list (string * N) }.
@@ -240,7 +246,7 @@ Definition run_step (p : proc) (s : step) (hid : N) : option proc * obs :=
   match sort_callbacks (compile_filter (p_cs p ++ [cb_of_step s hid])) with
   | SOk cs fns => (Some (mk_proc cs fns), OOk fns)
   | SErr cs n t => (Some (mk_proc cs []), OErr (conflict_msg n t) [])
-  | SCrash => (None, OCrash)
+  | SCyc cs n => (Some (mk_proc cs []), OErr (cyclic_msg n) [])
   end.
 
 Fixpoint run_from (p : proc) (hid : N) (h : list step) : list obs :=
